@@ -200,7 +200,7 @@ package bttest
 //@   requires req != nil
 //@   requires stream != nil
 //@   modifies s.tables[req.TableName].lastReadNanos
-//@   modifies ghost(btReadEpoch), ghost(btReadRow)
+//@   modifies ghost(btReadEpoch)
 //@   ensures !old(req.TableName in s.tables) ==> result != nil && uf_grpcCode(result) == codes.NotFound
 //@   ensures old(req.TableName in s.tables) && old(req.Rows != nil && (exists i :: 0 <= i < len(req.Rows.RowRanges) && rrBad(req.Rows.RowRanges[i]))) ==> result != nil && uf_grpcCode(result) == codes.InvalidArgument
 // (validation passed: stated over the entry state so that the InvalidArgument post needs no heap transfer at the late returns)
@@ -223,7 +223,7 @@ package bttest
 //@   property C03
 //@   requires req != nil
 //@   requires stream != nil
-//@   modifies ghost(btReadEpoch), ghost(btReadRow)
+//@   modifies ghost(btReadEpoch)
 //@   ensures !old(req.TableName in s.tables) ==> result != nil && uf_grpcCode(result) == codes.NotFound
 //@   callback $1 invariant held(tbl.mu) == 1
 //@   callback $1 invariant offset >= 0
